@@ -242,7 +242,7 @@ class ParseModel(object):
                     self.square.append((name, a))
         if not self.TAG or not self.DEP:
             raise AnalysisError('%s: score matrices over the tag/dep parameters not found' % H)
-        self.agenda = self._one_local(lambda d: 'priority_queue<parsing::cell_item' in (d.type or ''),
+        self.agenda = self._one_local(lambda d: 'priority_queue<parsing::cell_item' in (d.type or '') or (d.dtype or '').startswith('std::priority_queue<parsing::cell_item'),
                                       'agenda (priority_queue<cell_item>)')
         self.scored = self._one_local(lambda d: 'vector<std::priority_queue<' in (d.type or '') or 'vector<std::priority_queue<' in (d.dtype or ''),
                                       'per-word candidate queues')
@@ -333,11 +333,115 @@ class ParseModel(object):
                                 % (H, len(self.loops)))
         # roles: the search loop is the last one, the seeding loop the one before it, every loop before that initialises
         # per-token tables (one loop, or one per table)
+        # a loop nest that only tabulates an expression of two outside tables -- M(i, j) = f(i, j) for all 0 <= i <= j <=
+        # length -- defines a derived table: uses M(a, b) read as f(a, b)
+        self.derived = {}
+        self.derived_loops = []
+        for st in list(self.loops):
+            d_ = self._derived_table(st)
+            if d_ is not None:
+                self.derived[d_[0]] = d_[1:]
+                self.derived_loops.append(st)
+                self.loops.remove(st)
+        if len(self.loops) < 3:
+            raise AnalysisError('%s: expected at least 3 top-level for loops (initialisation, leaves, search), found %d'
+                                % (H, len(self.loops)))
         self.main_loop = self.loops[-1]
         self.leaf_loop = self.loops[-2]
         self.init_loops = self.loops[:-2]
         self.init_loop = self.init_loops[0]
         self._init_loop_roles()
+
+    def agenda_comparator(self):
+        """-> (function node, label) of the ordering the agenda uses: operator< on cell_item for the default comparator
+        (std::less), or the call operator of the functor named as the queue's third template argument; (None, why)
+        when it cannot be identified"""
+        import re as _re
+        d = self.locals[self.agenda]
+        t = (d.dtype or d.type or '').replace(' ', '')
+        mm = _re.match(r'^std::priority_queue<(?:parsing::)?cell_item(?:,std::vector<(?:parsing::)?cell_item(?:,std::allocator<(?:parsing::)?cell_item>)?>(?:,(.+))?)?>$', t)
+        if not mm:
+            return None, 'agenda has type %s' % (d.type,)
+        comp = mm.group(1)
+        if comp is None or _re.match(r'^std::less<((parsing::)?cell_item|void)?>$', comp):
+            fn = self.decls.get('operator<')
+            if fn is None:
+                meth = [k for k in self.decls['cell_item'].kids if k.kind == 'CXXMethodDecl' and k.name == 'operator<'
+                        and any(c.kind == 'CompoundStmt' for c in k.kids)]
+                fn = meth[0] if meth else None
+            return (fn, 'operator<') if fn is not None else (None, 'no operator< is defined for cell_item')
+        name = comp.replace('parsing::', '').replace('struct', '').replace('class', '')
+        rec = self.decls.get(name)
+        if rec is None or rec.kind != 'CXXRecordDecl':
+            return None, 'agenda is ordered by %s' % comp
+        meth = [k for k in rec.kids if k.kind == 'CXXMethodDecl' and k.name == 'operator()' and any(c.kind == 'CompoundStmt' for c in k.kids)]
+        if len(meth) != 1:
+            return None, '%s has no call operator' % name
+        return meth[0], name + '::operator()'
+
+    def pair_comparator(self, name):
+        """the ordering of a pair-like record: its member operator< or the free operator< declared for it"""
+        rec = self.decls.get(name)
+        if rec is not None:
+            meth = [k for k in rec.kids if k.kind == 'CXXMethodDecl' and k.name == 'operator<' and any(c.kind == 'CompoundStmt' for c in k.kids)]
+            if meth:
+                return meth[0]
+        return self.decls.get('lt:' + name)
+
+    def _derived_table(self, loop):
+        """-> (M, i, j, expr) when `loop` is  for i in [0, length]: for j in [i or 0, length]: M(i, j) = expr  over a local
+        (length+1) x (length+1) matrix M, expr free of M and of effects; else None"""
+        env = self.env
+        try:
+            vi, lo_i, cond_i, step_i, body_i = self._loop_header(loop)
+        except AnalysisError:
+            return None
+        full = lambda v, c: canon(c) in (canon(('bin', '<', V(v), ADD(V(self.p_len), LIT(1)))), canon(('bin', '<=', V(v), V(self.p_len))))
+        if lo_i != LIT(0) or not step_i or not full(vi, cond_i):
+            return None
+        inner = body_i
+        while inner.kind == 'CompoundStmt' and len(inner.kids) == 1:
+            inner = inner.kids[0]
+        if inner.kind != 'ForStmt':
+            return None
+        try:
+            vj, lo_j, cond_j, step_j, body_j = self._loop_header(inner)
+        except AnalysisError:
+            return None
+        if lo_j not in (LIT(0), V(vi)) or not step_j or not full(vj, cond_j):
+            return None
+        stmt = body_j
+        while stmt.kind == 'CompoundStmt' and len(stmt.kids) == 1:
+            stmt = stmt.kids[0]
+        n = strip(stmt)
+        tgt = val = None
+        if n.kind == 'BinaryOperator' and n.op == '=':
+            tgt, val = term(n.kids[0], env), term(n.kids[1], env)
+        elif n.kind == 'CXXOperatorCallExpr' and strip(n.kids[0]).ref == 'operator=':
+            tgt, val = term(n.kids[1], env), term(n.kids[2], env)
+        if tgt is None or tgt[0] != 'idx' or tgt[1][0] != 'var' or tgt[2] != (V(vi), V(vj)):
+            return None
+        name = tgt[1][1]
+        if name not in [x for x, _ in self.square] or any(x == V(name) for x in cxx.subterms(val)):
+            return None
+        if any(x[0] in ('call', 'mcall', 'assign') for x in cxx.subterms(val) if isinstance(x, tuple) and x):
+            return None
+        return name, vi, vj, val
+
+    def expand_derived(self, t):
+        """M(a, b) of a derived table -> its defining expression at (a, b)"""
+        if not self.derived or not isinstance(t, tuple):
+            return t
+
+        def go(x):
+            if not isinstance(x, tuple):
+                return x
+            x = tuple(go(y) for y in x)
+            if x and x[0] == 'idx' and x[1][0] == 'var' and x[1][1] in self.derived and len(x[2]) == 2:
+                vi, vj, expr = self.derived[x[1][1]]
+                return cxx.subst(expr, {V(vi): x[2][0], V(vj): x[2][1]})
+            return x
+        return go(t)
 
     def _find_lookup_object(self, locals_, ctor_args):
         for name, d in locals_.items():
@@ -499,6 +603,15 @@ class ParseModel(object):
             elif tgt[0] == 'var' and op == '+=':
                 if canon(val) == canon(best_dep) or (self.BD and canon(val) == canon(IDX(V(self.BD), V(var)))):
                     self.DALL = tgt[1]
+        # ... or the sum of the finished BD vector: D_all = std::accumulate(BD.begin(), BD.end(), 0)
+        self.DALL_sum = None
+        if self.DALL is None and self.BD:
+            for name, d in self.locals.items():
+                init = env.init_of(d)
+                t = term(init, env) if init is not None else None
+                if t is not None and t[0] == 'call' and t[1] in ('accumulate', 'std::accumulate') and len(t[2]) == 3 \
+                        and t[2][0] == ('mcall', V(self.BD), 'begin', ()) and t[2][1] == ('mcall', V(self.BD), 'end', ()):
+                    self.DALL, self.DALL_sum = name, t[2][2]
         # which outside matrix belongs to which vector
         self.T_OUT = self.D_OUT = None
         for vec, ln, mat, st in self.outside:
@@ -595,7 +708,7 @@ class ParseModel(object):
             # ANALYSIS-ERROR unless a rule (e.g. item immutability) already explains it as a violation
             self.opaque_pushes.append((n, arg))
             return
-        vals = list(arg[1])
+        vals = [self.expand_derived(v) for v in arg[1]]
         if len(vals) > len(self.item_fields):
             raise AnalysisError('%s:%s initialiser list longer than cell_item' % (H, n.line))
         while len(vals) < len(self.item_fields):
